@@ -45,6 +45,10 @@ def foreign_job(rng, deep=False):
     fl = [e["path"] for e in entries if not e["dir"]]
     if fl:
         after.append({"op": "rename", "name": "/" + fl[0], "name2": "/zz-new/moved"})
+    # metadata of original members changed through the filesystem (their tape headers carry no STFS records)
+    for n_ in fl[1:3]:
+        after.append(rng.choice([{"op": "chmod", "name": "/" + n_, "perm": 0o600}, {"op": "chown", "name": "/" + n_, "uid": 7, "gid": 8},
+                                 {"op": "chtimes", "name": "/" + n_, "atime": 1000000001, "mtime": 1100000001}]))
     # the archive's own directories: move one with everything below it, remove an empty one, remove one recursively
     dl = [e["path"] for e in entries if e["dir"] and e["path"] and "/" not in e["path"]]
     moved_file = fl[0] if fl else None
@@ -165,6 +169,11 @@ def c17_oracle(d):
     if got != exp:
         diff = [(p, exp.get(p), got.get(p)) for p in sorted(set(exp) | set(got)) if exp.get(p) != got.get(p)]
         fails.append(dict(kind="members-not-listed-or-not-byte-identical", detail=diff[:3]))
+    for stp in ("walk", "after", "rebuild"):
+        for e in (steps.get(stp) or {}).get("tree") or []:
+            if e.get("kind") == "f" and not e.get("err") and e.get("size") != e.get("len"):
+                fails.append(dict(kind="stat-size-differs-from-content-length", detail=[stp, e["path"], e.get("size"), e.get("len")]))
+                break
     for e in wk["tree"]:
         if e.get("lstat"):
             fails.append(dict(kind="listing-disagrees-with-stat", detail=[e["path"], e["lstat"]]))
